@@ -33,6 +33,7 @@ fn arg(args: &[String], key: &str) -> Option<String> {
 }
 
 fn main() {
+    if std::env::var("VH_BIGALLOC").is_ok() { crate::outcome::DEBUG_BIG.store(true, std::sync::atomic::Ordering::Relaxed); }
     let args: Vec<String> = std::env::args().collect();
     if args.len() < 2 {
         eprintln!("usage: vh <driver> --plans FILE --trace FILE --blobs FILE [--seed N]");
